@@ -176,6 +176,29 @@ func (s *State) callContract(spec *FuncSpec, callee *ssa.Function, c *ssa.CallCo
 			s.coll.specErr(s.eng, s.fn, cl, err)
 		}
 	}
+	// the callee may panic in the states named by its maypanic clauses: the caller must exclude them
+	// (or allow a panic itself under a condition implied by the callee's)
+	for _, cl := range spec.MayPanic {
+		cl := cl
+		err := safeSpec(func() {
+			cond := env.evalBool(cl.Expr)
+			allowed := "false"
+			if s.spec != nil && len(s.spec.MayPanic) > 0 {
+				cenv := s.specEnv().at(s.entry)
+				cenv.vars = s.entryVars
+				cenv.fn = nil
+				var alts []string
+				for _, mc := range s.spec.MayPanic {
+					alts = append(alts, cenv.evalBool(mc.Expr))
+				}
+				allowed = or(alts...)
+			}
+			s.oblige("safety", "callee-panic:"+name+"/"+cl.Name, unionProps([]string{"C19"}, unionProps(cl.Props, s.defaultProps())), or(not(cond), allowed), where, cl.Src)
+		})
+		if err != nil {
+			s.coll.specErr(s.eng, s.fn, cl, err)
+		}
+	}
 	// frame
 	if !spec.HasMod {
 		s.checkFrameAll(where, "call of "+name+" (contract without modifies)")
